@@ -121,7 +121,7 @@ Lemma walk_dirs : forall rest fuel links f pre,
   walk fuel links f pre rest = WOk (pre ++ rest) \/ walk fuel links f pre rest = WFuel.
 Proof.
   induction rest as [|c r IH]; intros fuel links f pre HN HD.
-  - left. cbn. now rewrite app_nil_r.
+  - left. destruct fuel; cbn; now rewrite app_nil_r.
   - destruct fuel as [|fuel']; [right; reflexivity|].
     cbn [walk]. inversion HN as [|? ? [N1 [N2 N3]] HN']; subst.
     rewrite N1, N2, N3. cbn [orb].
